@@ -21,7 +21,7 @@ def _fails(mod, trace, want):
     return True
 
 
-def minimise(mod, trace, violation, wall_cap=30.0):
+def minimise(mod, trace, violation, wall_cap=60.0):
     t0 = time.monotonic()
     want = {'cls': violation['cls'], 'sig': mod.signature(trace, violation)}
     best = copy.deepcopy(trace)
